@@ -88,6 +88,7 @@ class Prop:
     MAX_WORKERS = NCPU
     COQ_SHARD = 400
     CASES_PER_WORKER = 20
+    SHRINK_BUDGET_S = 150      # wall-clock budget for shrinking per run (0 disables shrinking)
 
     # -- to be provided by the property module ------------------------------------------------
     def gen(self, rng: random.Random, tier: str):
@@ -376,16 +377,24 @@ ALT = os.path.realpath(REPO) != "/repo"   # examining another tree (mutation exp
 def write_replay(pid, seed, n, payload):
     d = os.path.join(BUILD, "alt-replays") if ALT else os.path.join(VERIF, "replays")
     os.makedirs(d, exist_ok=True)
-    fn = os.path.join(d, f"{pid}-{seed}-{n}.json")
+    fn = os.path.join(d, f"{pid}-{seed}-{n}.json" if not ALT else f"{pid}-{seed}-{n}-{os.getpid()}.json")
     json.dump(payload, open(fn, "w"), indent=1, sort_keys=True)
     return fn
 
 
+_SHRINK_T0 = [None]
+
+
 def shrink_case(prop, case, clause):
-    """Greedy shrinking: keep any candidate on which the oracle still fails with the same clause."""
+    """Greedy shrinking: keep any candidate on which the oracle still fails with the same clause.
+    Bounded by prop.SHRINK_BUDGET_S seconds of wall clock per run (shrinking only makes replays smaller)."""
     cur = case
     cur_obs = None
+    if _SHRINK_T0[0] is None:
+        _SHRINK_T0[0] = time.time()
     for _ in range(60):
+        if time.time() - _SHRINK_T0[0] > prop.SHRINK_BUDGET_S:
+            break
         cands = list(prop.shrink(cur))[:40]
         if not cands:
             break
